@@ -364,8 +364,12 @@ ASSUME Removed = {} => Positions
 PCases(k) == {MkCase(e, "child", t, FALSE) : e \in {d \in KindSet : d.k = k}, t \in {"unset", "crash"} \cap TBValues}
 PAll == UNION {PCases(k) : k \in Kinds}
 RegT == [c \in PAll |-> Regular(c)]
-MutT == [r \in RuleIds |-> LET ef == Effect({r}) IN [c \in PAll |-> ProcessE(c, ef)]]
-Predict == [r \in RuleIds |->
+(* mutations: every single rule, and the whole `case "panic.go"` of stripRuntime *)
+PanicCase == "panic.preprintpanics+panic.printpanics"
+MutNames == RuleIds \cup {PanicCase}
+MutSet(name) == IF name = PanicCase THEN {"panic.preprintpanics", "panic.printpanics"} ELSE {name}
+MutT == [r \in MutNames |-> LET ef == Effect(MutSet(r)) IN [c \in PAll |-> ProcessE(c, ef)]]
+Predict == [r \in MutNames |->
              [prints |-> {k \in Kinds : \E c \in PCases(k) : RuntimeWrites(MutT[r][c]) # {}},
               exit_differs |-> {k \in Kinds : \E c \in PCases(k) : MutT[r][c].exit # RegT[c].exit},
               own_output_differs |-> {k \in Kinds : \E c \in PCases(k) : ProgramOut(MutT[r][c]) # ProgramOut(RegT[c])}]]
